@@ -4,76 +4,30 @@ import (
 	"fmt"
 	"math/big"
 	"os"
-	"time"
 
-	"github.com/inconshreveable/log15"
-	"github.com/zenon-network/go-zenon/common"
 	g "github.com/zenon-network/go-zenon/chain/genesis/mock"
-	"github.com/zenon-network/go-zenon/common/types"
-	"github.com/zenon-network/go-zenon/consensus"
-	"github.com/zenon-network/go-zenon/vm/constants"
-	"github.com/zenon-network/go-zenon/vm/embedded/definition"
-
-	"github.com/zenon-network/go-zenon/wallet"
 	"github.com/zenon-network/go-zenon/chain/nom"
-	"github.com/zenon-network/go-zenon/common/db"
+	"github.com/zenon-network/go-zenon/common/types"
+
 	"verif/harness/simnet"
 )
 
 func main() {
-	consensus.EpochDuration = 10 * time.Minute
-	simnet.Setup()
-	common.PillarLogger.SetHandler(log15.LvlFilterHandler(log15.LvlInfo, log15.StderrHandler))
 	base, _ := os.MkdirTemp("", "scratch")
 	defer os.RemoveAll(base)
 	A := simnet.Open("A", base+"/A", simnet.MockGenesis(), g.PillarKeys)
-	A.MustProduce(280)
-	B := simnet.Open("B", base+"/B", simnet.MockGenesis(), g.PillarKeys)
-	fmt.Println(B.SyncFrom(A, 50))
+	A.MustProduce(5)
 	S := simnet.Open("S", base+"/S", simnet.MockGenesis(), nil)
 	fmt.Println(S.SyncFrom(A, 50))
-	fp := A.Height()
-	_, err := A.Send(g.Pillar7, types.SentinelContract, types.QsrTokenStandard, new(big.Int).Set(constants.SentinelQsrDepositAmount), definition.ABISentinel.PackMethodPanic(definition.DepositQsrMethodName))
-	fmt.Println("deposit", err)
-	A.MustProduce(3)
-	_, err = A.Send(g.Pillar7, types.SentinelContract, types.ZnnTokenStandard, new(big.Int).Set(constants.SentinelZnnRegisterAmount), definition.ABISentinel.PackMethodPanic(definition.RegisterSentinelMethodName))
-	fmt.Println("register", err)
-	A.MustProduce(5)
-	st := A.Chain.GetFrontierMomentumStore()
-	fmt.Println("sentinel on A:", definition.GetSentinelInfoByOwner(st.GetAccountStore(types.SentinelContract).Storage(), g.Pillar7.Address) != nil)
-	fmt.Println(S.SyncFrom(A, 50))
-	B.MustProduce(12)
-	i, err := S.InsertChain(simnet.CloneBatch(B.Range(fp+1, B.Height())))
-	fmt.Println("switch", i, err, S.Height(), B.Height())
-	B.OnBlock = func(b *nom.AccountBlock, _ db.Patch, err error) {
-		fmt.Println("ONBLOCK", b.Address, b.Height, b.BlockType, "err:", err)
-	}
-	B.MustProduce(40)
-	fmt.Println("B height", B.Height())
-	for _, kp := range []*wallet.KeyPair{g.Pillar1, g.Pillar2, g.Pillar3} {
-		as := B.Chain.GetFrontierMomentumStore().GetAccountStore(kp.Address)
-		f, _ := as.Frontier()
-		for h := uint64(1); f != nil && h <= f.Height; h++ {
-			b, _ := as.ByHeight(h)
-			ch, _ := B.Chain.GetFrontierMomentumStore().GetBlockConfirmationHeight(b.Hash)
-			fmt.Println(kp.Address, h, b.BlockType, b.ToAddress, "confirmed at", ch)
-		}
-	}
-	for _, b := range B.Chain.GetAllUncommittedAccountBlocks() {
-		fmt.Println("POOL", b.Address, b.Height, b.BlockType, len(b.DescendantBlocks))
-	}
-	for _, a := range types.EmbeddedContracts {
-		f, _ := B.Chain.GetFrontierMomentumStore().GetAccountStore(a).Frontier()
-		fmt.Println(a, f.Height)
-	}
-	bs := B.Chain.GetFrontierMomentumStore().GetAccountStore(types.SentinelContract)
-	f, _ := bs.Frontier()
-	fmt.Println("sentinel chain height on B", f.Height)
-	le, _ := definition.GetLastEpochUpdate(bs.Storage())
-	fmt.Println("last epoch update sentinel", le.LastEpoch)
-	fmt.Println(S.SyncFrom(B, 10))
-	it := S.Chain.GetFrontierMomentumStore().GetAccountStore(types.SentinelContract).Storage().NewIterator([]byte{0})
-	for it.Next() {
-		fmt.Printf("sentinel storage on S: %x -> %x (nil=%v)\n", it.Key(), it.Value(), it.Value() == nil)
-	}
+	tx, err := A.Generate(&nom.AccountBlock{BlockType: nom.BlockTypeUserSend, Address: g.User1.Address, ToAddress: g.User2.Address, TokenStandard: types.ZnnTokenStandard, Amount: big.NewInt(5)}, g.User1)
+	fmt.Println("gen", err)
+	b := simnet.CloneBlock(tx.Block)
+	b.Data = append(b.Data, 1)
+	fmt.Println("hash ok:", b.ComputeHash() == b.Hash)
+	_, err = S.Sup.ApplyBlock(b)
+	fmt.Println("apply mutated:", err)
+	b2 := simnet.CloneBlock(tx.Block)
+	b2.Amount = big.NewInt(6)
+	_, err = S.Sup.ApplyBlock(b2)
+	fmt.Println("apply mutated amount:", err)
 }
